@@ -151,6 +151,91 @@ def _c08(tier):
     ]
 
 
+def _c19(tier):
+    from . import sessions
+    mf = [15, 25, 40, 60, 100, None]
+    return [
+        dict(name='sessions-default-bounded-scaled-regression', leg=sessions.leg_sessions, units=U(tier, 330), opts=dict(per_unit=3, profile_over=dict(
+            p_bounds=0.6, p_scaling=0.4, p_restarts=0.5, p_regression=0.5, maxfun_choices=mf, p_nsamples=0.3, p_noise=0.3))),
+        dict(name='sessions-convex', leg=sessions.leg_sessions, units=U(tier, 60), opts=dict(per_unit=1, profile_over=dict(
+            p_sets=1.0, p_restarts=0.3, maxfun_choices=[15, 25, 40]))),
+        dict(name='sessions-regularised', leg=sessions.leg_sessions, units=U(tier, 40), opts=dict(per_unit=1, profile_over=dict(
+            p_reg=1.0, p_bounds=0.5, p_restarts=0.3, maxfun_choices=[15, 25, 40]))),
+        dict(name='caller-data-swarm', leg='swarm', units=U(tier, 500), opts=dict(per_unit=8, oracles=['C19'], profile=P(
+            p_faults=0.4, p_int_dtype=0.3, p_restarts=0.5, maxfun_choices=BUDGETS_MIX, p_growing=0.03))),
+        dict(name='caller-data-convex-regularised', leg='swarm', units=U(tier, 50), opts=dict(per_unit=2, oracles=['C19'], salt='cr', profile=P(
+            p_sets=0.6, p_reg=0.5, p_faults=0.3, p_growing=0.0))),
+    ]
+
+
+def _session_reproduce(rec):
+    from . import sessions
+    return sessions.reproduce(rec)
+
+
+def _session_minimise(rec, same_failure):
+    from . import sessions
+    return sessions.minimise(rec, same_failure)
+
+
+CONVEX = dict(p_sets=1.0, p_growing=0.0, p_buggify=0.3)
+
+
+def _c09(tier):
+    return [
+        dict(name='convex-swarm', leg='swarm', units=U(tier, 420), opts=dict(per_unit=1, oracles=['C09'], probes=('dyk',), profile=P(
+            p_restarts=0.4, p_bounds=0.5, **CONVEX))),
+        dict(name='convex-faulted', leg='swarm', units=U(tier, 120), opts=dict(per_unit=1, oracles=['C09'], probes=('dyk',), salt='faulted', profile=P(
+            p_restarts=0.4, p_bounds=0.5, p_faults=1.0, allow_raise=False, **CONVEX))),
+        dict(name='convex-cuts', leg='cuts', units=U(tier, 16, 80), opts=dict(oracles=['C09'], probes=('dyk',), ref_budget_cap=U(tier, 25, 40), profile=P(
+            p_restarts=0.3, p_bounds=0.5, maxfun_choices=[15, 25, 40], **CONVEX))),
+    ]
+
+
+def _c15(tier):
+    return [
+        dict(name='convex-swarm', leg='swarm', units=U(tier, 380), opts=dict(per_unit=1, oracles=['insitu'], probes=('c15',), profile=P(
+            p_restarts=0.4, p_bounds=0.5, **CONVEX))),
+        dict(name='convex-faulted', leg='swarm', units=U(tier, 100), opts=dict(per_unit=1, oracles=['insitu'], probes=('c15',), salt='faulted', profile=P(
+            p_restarts=0.4, p_bounds=0.5, p_faults=1.0, allow_raise=False, **CONVEX))),
+        dict(name='convex-regularised', leg='swarm', units=U(tier, 60), opts=dict(per_unit=1, oracles=['insitu'], probes=('c15',), salt='reg', profile=P(
+            p_reg=1.0, p_restarts=0.3, p_bounds=0.5, **CONVEX))),
+    ]
+
+
+def _c12(tier):
+    return [
+        dict(name='box-swarm', leg='swarm', units=U(tier, 800), opts=dict(per_unit=8, oracles=['insitu'], probes=('c12',), profile=P(
+            p_bounds=0.7, p_restarts=0.5, p_growing=0.02, maxfun_choices=BUDGETS_BIG, p_buggify=0.7))),
+        dict(name='box-faulted', leg='swarm', units=U(tier, 300), opts=dict(per_unit=8, oracles=['insitu'], probes=('c12',), salt='faulted', profile=P(
+            p_bounds=0.7, p_restarts=0.5, p_growing=0.0, p_faults=1.0, allow_raise=False, maxfun_choices=BUDGETS_BIG))),
+        dict(name='box-cuts', leg='cuts', units=U(tier, 40), opts=dict(oracles=['insitu'], probes=('c12',), ref_budget_cap=U(tier, 80, 160), profile=P(
+            p_bounds=0.8, p_restarts=0.5, p_growing=0.0, maxfun_choices=[60, 80, None]))),
+    ]
+
+
+def _c13(tier):
+    return [
+        dict(name='box-swarm', leg='swarm', units=U(tier, 500), opts=dict(per_unit=8, oracles=['insitu'], probes=('c13',), profile=P(
+            p_bounds=0.7, p_restarts=0.5, p_growing=0.0, p_diag=0.4, maxfun_choices=BUDGETS_BIG, p_buggify=0.7))),
+        dict(name='box-faulted', leg='swarm', units=U(tier, 150), opts=dict(per_unit=8, oracles=['insitu'], probes=('c13',), salt='faulted', profile=P(
+            p_bounds=0.7, p_restarts=0.5, p_growing=0.0, p_faults=1.0, allow_raise=False, maxfun_choices=BUDGETS_BIG))),
+        dict(name='convex-swarm', leg='swarm', units=U(tier, 260), opts=dict(per_unit=1, oracles=['insitu'], probes=('c13',), salt='convex', profile=P(
+            p_restarts=0.4, p_bounds=0.5, **CONVEX))),
+        dict(name='regularised-swarm', leg='swarm', units=U(tier, 200), opts=dict(per_unit=1, oracles=['insitu'], probes=('c13',), salt='reg', profile=P(
+            p_reg=1.0, p_bounds=0.5, p_sets=0.25, p_restarts=0.3, p_growing=0.0))),
+    ]
+
+
+def _c14(tier):
+    return [
+        dict(name='bounded-prefix-swarm', leg='swarm', units=U(tier, 900), opts=dict(per_unit=8, oracles=['C14', 'insitu'], probes=('c14',), profile=P(
+            p_bounds=1.0, p_restarts=0.4, p_growing=0.0, p_random_init=0.0, p_faults=0.2, allow_raise=False, maxfun_choices=['npt', 'npt+1', 'npt+3', 25, 40], p_buggify=0.3))),
+        dict(name='direction-generators', leg='swarm', units=U(tier, 500), opts=dict(per_unit=8, oracles=['insitu'], probes=('c14',), salt='dirs', profile=P(
+            p_bounds=0.9, p_restarts=0.7, p_growing=0.15, p_random_init=0.5, p_increase_npt=0.6, p_momentum=0.6, p_regression=0.8, maxfun_choices=BUDGETS_BIG))),
+    ]
+
+
 def _census(tier):
     allo = ['C01', 'C02', 'C03', 'C04', 'C07', 'C08', 'C10', 'C11', 'C18', 'C19', 'C20']
     return [
@@ -169,14 +254,22 @@ CHECKS = {
                 assumptions=COMMON_ASSUME + ['the per-key type/range table of ParameterList.param_type is taken as the documented domain of user_params']),
     'C08': dict(legs=_c08, level='fault_enumeration', rule='per sampled world a fault-free reference run, then every k=1..nf_ref x {nan,+inf,-inf,1e200} x {one,all components} + raise, then from-k-on faults; random multi-fault schedules; NaN-region worlds; a fault point counts only if the fault fired; distinct = distinct path signatures',
                 assumptions=COMMON_ASSUME + ['wrong-shaped residuals and exceptions from policy callbacks are outside the property and not injected']),
+    'C09': dict(legs=_c09, level='exploration', rule='convex worlds (1-4 balls / half-spaces / boxes round a common interior point, with or without bounds, feasible / infeasible x0, restarts, value faults, budget cuts); wrapper round the alternating-projection routine as imported by each dfols module; every evaluated point must be a recorded output; distinct = distinct path signatures', assumptions=COMMON_ASSUME + ['the harness projector stubs are exact projections; sweeps = projector calls / p']),
+    'C12': dict(legs=_c12, level='exploration', rule='in-situ assertion on every call the solver makes to the box trust-region routine during simulated (incl. fault-perturbed, forced-base-shift) runs; inputs the solver cannot produce (indefinite H, degenerate boxes) are NOT covered; distinct = distinct path signatures', assumptions=COMMON_ASSUME + ['class-B property: only inputs produced by simulated histories are asserted']),
+    'C13': dict(legs=_c13, level='exploration', rule='in-situ assertions on every call to the geometry step (global maximum by a bisection oracle), the projected-gradient / S-FISTA / convex geometry solvers (norm bound) and the regularised trust-region step (predicted reduction) during simulated runs; distinct = distinct path signatures', assumptions=COMMON_ASSUME + ['class-B property: only inputs produced by simulated histories are asserted']),
+    'C14': dict(legs=_c14, level='exploration', rule='(a) prefix of every bounded history with coordinate initialisation and nf >= npt, npt <= 2n+1, all x0 placements; (b) in-situ assertions on the random direction generators, which draw from the simulator-owned global RNG (random initialisation, growing, momentum steps, soft restart with increase_npt); distinct = distinct path signatures', assumptions=COMMON_ASSUME + ['class-B property for the generators: only argument patterns produced by simulated histories are asserted']),
+    'C15': dict(legs=_c15, level='exploration', rule='in-situ assertion of the alternating-projection routine\'s own contract on every call made from dfols.model / solver / controller / trust_region in convex and regularised worlds (p = user sets + box (+ trust-region ball)); reference run to tol 1e-30 for a deterministic 1-in-20 sample of calls with tol <= 1e-10; distinct = distinct path signatures', assumptions=COMMON_ASSUME + ['class-B property: only calls made by simulated histories are asserted; optimality clause only for tol <= 1e-10']),
     'C10': dict(legs=_c10, level='exploration', rule='cut-point enumeration + swarm + faulted legs with buggified tolerances/slow/auto-detect settings; history oracle coupling (flag,msg) to recorded facts; distinct = distinct path signatures', assumptions=COMMON_ASSUME),
     'C11': dict(legs=_c11, level='exploration', rule='noise-free worlds without projections; independent least-squares fit to the recorded calls named by jacmin_eval_nums; cut-point enumeration + swarm (scaling in half of the bounded runs); distinct = distinct path signatures', assumptions=COMMON_ASSUME),
     'C18': dict(legs=_c18, level='exploration', rule='every run has diagnostics on; time-series invariants over soln.diagnostic_info cross-checked with the harness iteration events; swarm + cuts + faulted + growing legs', assumptions=COMMON_ASSUME),
+    'C19': dict(legs=_c19, level='exploration', rule='sessions: the same non-randomised call W repeated under different np.random seeds, with the environment drawing from the shared global RNG between solver draws, after an unrelated call and after a call that raised; behaviour digests of all W runs must be bit-identical; caller-side snapshots of all arguments compared after every call of every leg (incl. faulted and raising runs, integer-dtype x0/bounds); distinct = distinct path signatures of the W runs',
+                assumptions=COMMON_ASSUME + ['"randomised option" is read from the code: random initial directions, any growing configuration, restarts.increase_npt, momentum extra steps; convex worlds whose coordinate set needs the random repair path are detected (extra qr_rank calls) and not compared']),
     'C20': dict(legs=_c20, level='exploration', rule='every result object with a solution produced by the swarm / faulted / convex / regularised legs is pushed through to_dict -> strict json -> from_dict -> str; plus field faults (see field_faults in coverage)', assumptions=COMMON_ASSUME),
     'census': dict(legs=_census, level='exploration', rule='all oracles on a general swarm (development aid, not registered)', report_all=True, no_minimise=True, spot_check=False),
 }
 
-REPRODUCERS = {}
+REPRODUCERS = {'session': _session_reproduce}
+MINIMISERS = {'session': _session_minimise}
 
 _cache = {}
 
